@@ -40,6 +40,7 @@ func C09(r *core.Run) {
 	rule094(r, ctx, undischarged)
 	rule096(r)
 	rule097(r, reach)
+	rule098(r)
 }
 
 // reviewed is one entry of the reviewed discharge table. Keys are structural
@@ -1499,4 +1500,27 @@ func sameRequest(r *core.Run, v, rq ssa.Value, depth int) bool {
 		}
 	}
 	return false
+}
+
+// rule098 — bolt transactions never outlive the call that opened them.
+func rule098(r *core.Run) {
+	r.Rule("R09.8", "the bolt backend opens transactions only through (*bolt.DB).View / Update (scoped to a closure), never with Begin: a read transaction that is still open when a writer has to grow the file blocks that writer while it holds the write lock, and every later request behind it — the server hangs")
+	n, scoped := 0, 0
+	for _, fn := range r.P.FuncsOfPkg("s3bolt") {
+		f := fn
+		core.Instrs(f, func(in ssa.Instruction) {
+			c, ok := in.(ssa.CallInstruction)
+			if !ok {
+				return
+			}
+			switch r.P.CalleeName(c) {
+			case "(*go.etcd.io/bbolt.DB).Begin":
+				n++
+				r.Violated("R09.8", key(fname(r, f), "manual transaction", sprintf("#%d", n)), pos(r, in), "a bolt transaction is opened with Begin: its lifetime is no longer bounded by the call (a reader left open blocks the next file-growing writer, which holds the write lock — every request then hangs)")
+			case "(*go.etcd.io/bbolt.DB).View", "(*go.etcd.io/bbolt.DB).Update":
+				scoped++
+			}
+		})
+	}
+	r.Check(scoped >= 8, "R09.8", key("s3bolt", "transactions are closure-scoped"), "", sprintf("%d View/Update transactions, no Begin", scoped), "fewer closure-scoped bolt transactions than the backend's operations need: the anchors moved")
 }
